@@ -14,6 +14,9 @@ from .report import Reporter
 def analyse(prop, root='/repo', tier='quick', seed=0, program=None):
     """run the rules of one property on the tree under root; returns the Reporter (no output, no files)."""
     P = program or Program(root)
+    from . import paths
+    paths.PROGRAM = P
+    paths._FM.clear()
     R = Reporter(prop, tier, seed, root)
     mod = importlib.import_module('sa.props.' + prop.lower())
     R.stats['modules'] = len(P.mods)
